@@ -222,16 +222,44 @@ SNIPPET = {
 }
 
 
+STYLE = ["noqa"]   # how a suppressed templating/parsing error is realised: inline noqa, or `ignore = parsing,templating`
+STYLES = ("noqa", "config")
+
+
 def build_real_file(desc):
     """SQL + config realising a kind/flag vector with the real rules (one statement per kind, one per line)."""
-    lines, warn = [], []
+    lines, warn, ignore = [], [], []
     order = sorted(desc, key=lambda d: d[0] in ("PRS",))  # the unparsable statement goes last
     for k, ig, wa in order:
         sql, code = SNIPPET[k]
-        lines.append(sql + (f"  -- noqa: {code}" if ig else "") + ("" if k == "PRS" else ";"))
+        by_config = ig and k in ("PRS", "TMP") and STYLE[0] == "config"
+        if by_config:
+            ignore.append("parsing" if k == "PRS" else "templating")
+        lines.append(sql + (f"  -- noqa: {code}" if ig and not by_config else "") + ("" if k == "PRS" else ";"))
         if wa:
             warn.append(code)
+    if ignore:
+        warn = list(warn) + ["\nignore = " + ",".join(ignore)]   # smuggled into the config text below
     return "\n".join(lines) + "\n", warn
+
+
+def _cfg_text(warn):
+    extra = [w for w in warn if w.startswith("\nignore")]
+    codes = [w for w in warn if not w.startswith("\nignore")]
+    return "[sqlfluff]\ndialect = ansi\nrules = LT01,AM04\n" + (f"warnings = {','.join(codes)}\n" if codes else "") + "".join(e.strip("\n") + "\n" for e in extra)
+
+
+def each_style(fn):
+    """Run a replay under every realisation style; the first description wins."""
+    for st in STYLES:
+        STYLE[0] = st
+        try:
+            d = fn()
+        finally:
+            STYLE[0] = "noqa"
+        if d:
+            return d + f" [suppression realised via {st}]"
+    return None
 
 
 def cli_fix_on_disk(desc, fix_even_unparsable=False):
@@ -243,7 +271,7 @@ def cli_fix_on_disk(desc, fix_even_unparsable=False):
         p = os.path.join(d, "t.sql")
         open(p, "w").write(sql)
         cfg = os.path.join(d, ".sqlfluff")
-        open(cfg, "w").write("[sqlfluff]\ndialect = ansi\nrules = LT01,AM04\n" + (f"warnings = {','.join(warn)}\n" if warn else ""))
+        open(cfg, "w").write(_cfg_text(warn))
         args = ["fix", p, "--config", cfg] + (["--FIX-EVEN-UNPARSABLE"] if fix_even_unparsable else [])
         r = CliRunner().invoke(cmds.cli, args)
         return r.exit_code, open(p).read() != sql, sql, r.output[-400:]
@@ -257,7 +285,7 @@ def cli_lint_on_disk(desc):
         p = os.path.join(d, "t.sql")
         open(p, "w").write(sql)
         cfg = os.path.join(d, ".sqlfluff")
-        open(cfg, "w").write("[sqlfluff]\ndialect = ansi\nrules = LT01,AM04\n" + (f"warnings = {','.join(warn)}\n" if warn else ""))
+        open(cfg, "w").write(_cfg_text(warn))
         r = CliRunner().invoke(cmds.cli, ["lint", p, "--config", cfg])
         return r.exit_code, sql, r.output[-400:]
 
@@ -269,7 +297,7 @@ def cli_fix_stdin(desc, fix_even_unparsable=False):
     sql, warn = build_real_file(desc)
     with tempfile.TemporaryDirectory() as d:
         cfg = os.path.join(d, ".sqlfluff")
-        open(cfg, "w").write("[sqlfluff]\ndialect = ansi\nrules = LT01,AM04\n" + (f"warnings = {','.join(warn)}\n" if warn else ""))
+        open(cfg, "w").write(_cfg_text(warn))
         args = ["fix", "-", "--config", cfg] + (["--FIX-EVEN-UNPARSABLE"] if fix_even_unparsable else [])
         try:
             r = CliRunner(mix_stderr=False).invoke(cmds.cli, args, input=sql)
